@@ -72,7 +72,16 @@ ArglikeOrderOk(seq) ==
   \A i \in 1..Len(seq), j \in 1..Len(seq) : i < j =>
      /\ ~(ArgCat(seq[j][1]) = "pos" /\ ArgCat(seq[i][1]) \in {"kw", "dstar"})
      /\ ~(ArgCat(seq[j][1]) = "star" /\ ArgCat(seq[i][1]) = "dstar")
-OrderRuleBroken(s, e) == e.field \in {"_args", "_bases"} /\ WellFormed(s, e) /\ ~ArglikeOrderOk(Expected(s, e))
+(* MatchMapping._all: at most one `**rest` element (a 1-tuple) and only at the *)
+(* end (d07); MatchClass._attrs: positional patterns (1-tuples) before keyword *)
+(* ones (2-tuples)                                                             *)
+RestLastOk(seq)  == \A i \in 1..Len(seq) : Len(seq[i]) = 1 => i = Len(seq)
+PosBeforeKw(seq) == \A i \in 1..Len(seq), j \in 1..Len(seq) : (i < j /\ Len(seq[i]) = 2) => Len(seq[j]) = 2
+OrderRuleBroken(s, e) ==
+  /\ WellFormed(s, e)
+  /\ \/ e.field \in {"_args", "_bases"} /\ ~ArglikeOrderOk(Expected(s, e))
+     \/ e.field = "_all" /\ TKind(s, e) = "MatchMapping" /\ ~RestLastOk(Expected(s, e))
+     \/ e.field = "_attrs" /\ ~PosBeforeKw(Expected(s, e))
 
 (* Compare slices (d06): operators strictly left of the slice and strictly     *)
 (* right of it are kept; which operator adjoins the slice is op_side's choice  *)
